@@ -90,6 +90,9 @@ class C10(Prop):
                 Vp.append(row)
             if sum(x for row in Vp for x in row if x is not None) <= 0:
                 continue
+            if kind == "ints" and i % 3 == 1:      # the same utilities in another unit, down to the subnormals and up to the top of the range (exact powers of two): shares do not change
+                u = 2.0 ** [-1070, -1074, -1040, -300, 1000, -1060][(i // 3) % 6]
+                Vp = [[x * u for x in row] for row in Vp]; kind = "ints_unit"
             yield dict(entry="SocialWelfare.%s" % ("score" if i % 2 else "scf"), family="util_" + kind, rule="SocialWelfare",
                        method=("score" if i % 2 else "scf"), V=Vp, zi=bool(i % 3 == 0), tb=V.TBS[i % 3], k=1)
 
